@@ -84,6 +84,9 @@ var variants = []variant{
 	{"below-symlinked-parent", "other", "{R}/parentlink/src", "parent-link"},
 	{"below-symlinked-parent-rel", ".", "parentlink/src", "parent-link"},
 	{"dots-behind-symlink", "other", "{R}/hop/../../src", "link-chain"},
+	{"dots-behind-symlink-last", "other", "{R}/hop2/..", "link-chain"},
+	{"link-target-dots-behind-symlink", "other", "{R}/lndots2", "link-chain"},
+	{"link-abs-target-dots-behind-symlink", "other", "{R}/lndots3", "link-chain"},
 	{"dots-behind-symlink-rel", ".", "hop/../../src", "link-chain"},
 	{"link-abs-target", "other", "{R}/lnabs", "link"},
 	{"link-abs-target-rel-spelling", ".", "lnabs", "link"},
@@ -124,6 +127,10 @@ func setupArena(c Case) (r, src string, vars map[string]string, cleanup func(), 
 		{Path: "parentlink", Kind: "symlink", Target: "."},
 		{Path: "ln2", Kind: "symlink", Target: "lnabs"},
 		{Path: "hop", Kind: "symlink", Target: "other/sub"},
+		{Path: "src/zz-hop-target", Kind: "dir", Mode: 0755},
+		{Path: "hop2", Kind: "symlink", Target: "src/zz-hop-target"},
+		{Path: "lndots2", Kind: "symlink", Target: "hop/../../src"},
+		{Path: "lndots3", Kind: "symlink", Target: "{R}/hop/../../src"},
 		{Path: "lnslash", Kind: "symlink", Target: "{R}/lnabs/"},
 		{Path: "lnslashrel", Kind: "symlink", Target: "lnabs/"},
 		{Path: "lndots", Kind: "symlink", Target: "{R}/other/../lnabs/."},
